@@ -1,7 +1,10 @@
 #!/usr/bin/env python3
 """tools/seedrun.py <patch.diff> <Cxx> [<Cyy> ...] [--tier quick|thorough] [--seed N]
 Runs the registered checks of the given properties against a scratch worktree of /repo with the
-patch applied (VERIF_REPO), prints the verdict lines, and removes the scratch worktree."""
+patch applied (VERIF_REPO), prints the verdict lines, and removes the scratch worktree.
+The checks run inside a scratch COPY of /verif (the translators rewrite lean/Slu/Gen/ from the tree
+they are pointed at, and evidence/replay files are written): nothing in /verif itself is touched,
+so any number of these runs can go on next to ordinary work."""
 import sys, os, subprocess, shutil
 ROOT = os.path.dirname(os.path.dirname(os.path.abspath(__file__)))
 args = sys.argv[1:]
@@ -12,30 +15,30 @@ fams = []
 while '--fam' in args: i = args.index('--fam'); fams.append(args[i+1].split()); del args[i:i+2]   # --fam "ilu 20000 1 asan ty=d": ./check fam ... on the patched tree
 patch = os.path.abspath(args[0]); props = args[1:]
 wt = '/tmp/seedrepo-%d' % os.getpid()
+vc = '/tmp/seedverif-%d' % os.getpid()
 subprocess.run(['git', '-C', '/repo', 'worktree', 'add', '--detach', '-q', wt], check=True)
 try:
+    subprocess.run(['rsync', '-a', '--exclude', '.git', '--exclude', 'replays', '--exclude', '.work/tree-*', '--exclude', '.work/cap',
+                    '--exclude', '.work/seed-evidence', '--exclude', 'seeded', ROOT + '/', vc + '/'], check=True)
     # files that exist in /repo's working tree but are not tracked (generated config header)
     for f in ('SRC/superlu_config.h',):
         if os.path.exists('/repo/' + f) and not os.path.exists(os.path.join(wt, f)): shutil.copy('/repo/' + f, os.path.join(wt, f))
     r = subprocess.run(['git', '-C', wt, 'apply', patch], capture_output=True, text=True)
     if r.returncode: print('PATCH DOES NOT APPLY:', r.stderr); sys.exit(2)
-    env = dict(os.environ, VERIF_REPO=wt, VERIF_SEED=seed, VERIF_EVIDENCE_DIR=os.path.join(ROOT, '.work', 'seed-evidence'))
+    env = dict(os.environ, VERIF_REPO=wt, VERIF_SEED=seed, VERIF_EVIDENCE_DIR=os.path.join(vc, '.work', 'seed-evidence'))
     for fa in fams:
-        r = subprocess.run([os.path.join(ROOT, 'check'), 'fam'] + fa, capture_output=True, text=True, env=env, cwd=ROOT)
+        r = subprocess.run([os.path.join(vc, 'check'), 'fam'] + fa, capture_output=True, text=True, env=env, cwd=vc)
         print('== fam %s exit=%d' % (' '.join(fa), r.returncode)); print(r.stdout[-3000:])
     for p in props:
-        r = subprocess.run([os.path.join(ROOT, 'check'), 'run', p, '--tier', tier], capture_output=True, text=True, env=env, cwd=ROOT)
+        r = subprocess.run([os.path.join(vc, 'check'), 'run', p, '--tier', tier], capture_output=True, text=True, env=env, cwd=vc)
         lines = [l for l in r.stdout.split('\n') if l.startswith(('VIOLATION', 'KNOWN-FINDING', p))]
         print('== %s exit=%d' % (p, r.returncode)); print('\n'.join(l[:300] for l in lines))
         for l in lines:
             if l.startswith('VIOLATION'):
                 rp = l.split('replay=')[1].split()[0]
                 try:
-                    import json; d = json.load(open(os.path.join(ROOT, rp))); print('   ->', str(d.get('message') or d.get('broken'))[:300])
+                    import json; d = json.load(open(os.path.join(vc, rp))); print('   ->', str(d.get('message') or d.get('broken'))[:300])
                 except Exception as e: pass
 finally:
     subprocess.run(['git', '-C', '/repo', 'worktree', 'remove', '--force', wt])
-    # regenerate anything the translators wrote from the mutated tree
-    subprocess.run([os.path.join(ROOT, 'check'), 'gen'], cwd=ROOT)
-    for t in ('argchain', 'census', 'xpandscan', 'leakscan'):
-        subprocess.run([sys.executable, os.path.join(ROOT, 'tools', t + '.py'), '/repo', os.path.join(ROOT, 'lean', 'Slu', 'Gen')], capture_output=True)
+    shutil.rmtree(vc, ignore_errors=True)
